@@ -312,3 +312,87 @@ Theorem fuel_never_runs_out :
     Tree_dunder_len (LGE E eo hd age) fuel n <> OutOfFuel.
 Proof. exact (@never_out_of_fuel). Qed.
 Print Assumptions fuel_never_runs_out.
+
+(* ===== several trees in one process: object level (Model/C15World.v) =====
+   Node_*_obj / Tree_*_obj are definitions of Gen/TraversalsObj.v, GENERATED from the source of
+   Node.child_nodes / clear_child_nodes / add_child / set_child_nodes / _set_parent_node and
+   Tree._set_seed_node: state transformers on a store of node records and LIST OBJECTS
+   (Model/C15WorldPrims.v), recording which list object is copied or mutated in place.
+   kids_of s x / parent_of s x are the object graph (WG s) the traversal machines run on in the
+   correspondence check; owned s = the list objects that are some node's child list or held by
+   the caller. *)
+From DV Require Import Model.C15WorldPrims Gen.TraversalsObj Model.C15World Proofs.C15WorldProofs.
+Open Scope Z_scope.
+
+(* Over every history of the public routes (a copy obtained from child_nodes() edited and assigned back with
+   set_child_nodes or kept, Tree(seed_node=n), tree.seed_node = n, n.parent_node = p, new_child,
+   remove_child, new trees) from any initial forest: no list object is the child list of two nodes,
+   or the child list of a node and a list the caller holds. *)
+Theorem no_list_object_shared :
+  forall (ts : list tree) (sts : list step) (s0 s : store),
+    build_world ts empty_store = Ok (tt, s0) ->
+    run_steps sts s0 = Ok (tt, s) ->
+    NoDup (owned s) /\ (forall o, In o (owned s) -> o < s_next s).
+Proof. exact sep_history. Qed.
+Print Assumptions no_list_object_shared.
+
+(* child_nodes() returns a list object that did not exist before (so it is nobody's child list and
+   no earlier result), with the contents of the node's child list; nothing else changes. *)
+Theorem child_nodes_returns_new_object :
+  forall (x : Z) (s : store) (l : Z) (s' : store),
+    Node_child_nodes_obj x s = Ok (l, s') ->
+    l = s_next s /\ s_next s' = s_next s + 1 /\ s_nodes s' = s_nodes s /\ s_held s' = s_held s /\ s_trees s' = s_trees s /\
+    exists r c, node_of s x = Some r /\ list_of s (n_kids r) = Some c /\ s_lists s' = s_lists s ++ [(l, c)].
+Proof. exact child_nodes_new_object. Qed.
+Print Assumptions child_nodes_returns_new_object.
+
+Theorem child_nodes_result_is_private :
+  forall (x : Z) (s : store) (l : Z) (s' : store),
+    Node_child_nodes_obj x s = Ok (l, s') -> sep s -> sep s' /\ ~ In l (owned s') /\ l < s_next s'.
+Proof. exact sep_child_nodes. Qed.
+Print Assumptions child_nodes_result_is_private.
+
+(* frame: whatever the caller writes into a list object that is nobody's child list is invisible to
+   every node: no child list and no parent pointer changes (so no traversal of any tree does) *)
+Theorem private_list_edit_frame :
+  forall (l : Z) (c : list Z) (s s' : store) (x : Z),
+    private l s -> l_put l c s = Ok (tt, s') ->
+    kids_of s' x = kids_of s x /\ parent_of s' x = parent_of s x.
+Proof. exact private_list_frame. Qed.
+Print Assumptions private_list_edit_frame.
+
+(* tree.seed_node = n / Tree(seed_node=n) with n attached below p ("spliced out of [its] current
+   context"): n has no parent afterwards, p's child list has lost its first occurrence of n, every
+   other parent pointer and every other list object is unchanged *)
+Theorem seed_node_setter_splices_out :
+  forall (t n p : Z) (s s' : store),
+    Tree_set_seed_node_obj t (Some n) s = Ok (tt, s') ->
+    parent_of s n = Some p ->
+    parent_of s' n = None /\
+    kids_of s' p = remove_first n (kids_of s p) /\
+    (forall y, y <> n -> parent_of s' y = parent_of s y) /\
+    (forall rp l, node_of s p = Some rp -> l <> n_kids rp -> list_of s' l = list_of s l).
+Proof. exact seed_spliced_out. Qed.
+Print Assumptions seed_node_setter_splices_out.
+
+Theorem new_seed_is_nobodys_child :
+  forall (t n p : Z) (s s' : store),
+    Tree_set_seed_node_obj t (Some n) s = Ok (tt, s') -> parent_of s n = Some p -> NoDup (kids_of s p) ->
+    ~ In n (kids_of s' p) /\ parent_of s' n = None.
+Proof. exact seed_not_a_child_any_more. Qed.
+Print Assumptions new_seed_is_nobodys_child.
+
+(* the hypotheses are satisfiable: a concrete history through all routes runs to the expected forest,
+   and the seed setter succeeds on an attached node of a built tree *)
+Theorem world_history_example :
+  exists s0 s, build_world [ex_tree] empty_store = Ok (tt, s0) /\ run_steps ex_steps s0 = Ok (tt, s) /\
+               s_trees s = [4; 1] /\ kids_of s 0 = [] /\ kids_of s 4 = [5] /\ kids_of s 1 = [2; 3; 7] /\ kids_of s 2 = [] /\
+               held_contents s = [[6]].
+Proof. exact ex_history_runs. Qed.
+Print Assumptions world_history_example.
+
+Theorem attached_seed_example :
+  exists s0 s', build_world [ex_tree] empty_store = Ok (tt, s0) /\ parent_of s0 1 = Some 0 /\ NoDup (kids_of s0 0) /\
+                Tree_set_seed_node_obj 1 (Some 1) s0 = Ok (tt, s').
+Proof. exact ex_attached_seed. Qed.
+Print Assumptions attached_seed_example.
